@@ -5,6 +5,17 @@ import csv, json, os
 
 V = os.path.dirname(os.path.dirname(os.path.abspath(__file__)))
 DEMO = {
+ "C03_pae_le64_msb_wrong_byte": 'cargo test --offline --test demo_pae_le64_msb',
+ "C04_v3_local_prk_by_key_address": 'cargo test --offline --features v3_local --test demo_v3_local_key_slot',
+ "C07_header_from_token_segments": 'cargo test --offline --test demo_c07_header_from_token',
+ "C08_set_payload_resets_builder": 'cargo test --offline --test demo_c08_setter_order',
+ "C10_nonce_ratchet_block0": 'cargo test --offline --test demo_c10_nonce_ratchet',
+ "C11_expectation_replaces_rule": 'cargo test --offline --test demo_expectation_replaces_rule',
+ "C12_default_rules_pigeonhole": 'cargo test --offline --test demo_default_rules_pigeonhole',
+ "C14_blank_key_dropped": 'cargo test --offline --test demo_blank_key_dropped',
+ "C18_error_excerpt_char_boundary": 'cargo test --offline --test demo_error_excerpt_char_boundary',
+ "C19_generic_builder_v3_encrypt_any_purpose": 'bash mutants/C19_generic_builder_v3_encrypt_any_purpose/demo.sh',
+ "C20_symkey_second_asref": 'cargo test --offline --no-default-features --features "core,v4_local,v2_local" --test demo_c20_symkey_second_asref   (passes with "core,v4_local" both ways)',
  "C01_v3_local_builder_else_if": 'cargo test --offline --features "v3_local" --test demo_c01_v3_local_builder_else_if',
  "C02_v1_public_parser_footer_dropped": 'cargo test --offline --features "v1_public" --test demo_c02_v1_public_parser_footer_dropped',
  "C02_v3_public_verify_low_s_only": 'cargo test --offline --features "v3_public" --test demo_c02_v3_public_verify_low_s_only',
@@ -124,6 +135,27 @@ T = {
  "C19_private_key64_any_version": ("C19", "From<&Key<64>> for the private key loosened from V2orV4 to any version", "PasetoAsymmetricPrivateKey::<V1|V3, Public> from &Key<64> compiles"),
  "C20_expected_header_cache": ("C20", "expected header cached in a static shared by all monomorphisations", "two different protocols parsed in one process"),
  "C20_header_arm_gate": ("C20", "header statics / match arms feature-gated, v1.public's on v1_local", "v1_public enabled without v1_local: tokens lack the header, round trip fails"),
+ # ---- round 3 (one per property, "the most devious realistic change", both earlier lists known to the agent)
+ "C01_core_builder_payload_last": ("C01", "Paseto::set_payload rebuilds the builder from builder(): a footer / assertion set BEFORE the payload is lost", "core layer, set_footer or set_implicit_assertion called before set_payload"),
+ "C02_payload_trailing_line_break": ("C02", "Payload::from(&str) trims trailing CR / LF", "core layer, a message ending in a line break: the token verifies and returns a shortened message"),
+ "C03_pae_le64_msb_wrong_byte": ("C03", "le64 clears bit 7 of byte 0 instead of byte 7: lengths n and n+128 encode alike (both sides)", "a footer >= 128 bytes crafted so that moving 128 bytes between PAE pieces keeps the PAE identical"),
+ "C04_v3_local_prk_by_key_address": ("C04", "v3.local HKDF-Extract cached per thread, keyed by the ADDRESS of the key object", "v3.local, key K used, then another key whose object sits at the same address"),
+ "C05_set_payload_resets_builder": ("C05", "same change as C01_core_builder_payload_last, delivered for C05", "core layer, footer set before the payload or payload replaced on a configured builder: token has no footer"),
+ "C06_pae_le64_msb_wrong_byte": ("C06", "same le64 change as C03_pae_le64_msb_wrong_byte, delivered for C06", "an assertion >= 128 bytes with a crafted length marker: a proper suffix of A (or none) is accepted"),
+ "C07_header_from_token_segments": ("C07", "parse_raw_token no longer compares headers; the PAE header is taken from the token's own first two segments", "a hybrid token no implementation emits: Y's algorithm over a PAE naming X's header, with X's header in the text"),
+ "C08_set_payload_resets_builder": ("C08", "same change as C01_core_builder_payload_last, delivered for C08", "core layer, setters called in another order than payload-first"),
+ "C09_key_hex_whitespace": ("C09", "Key::try_from(&str): early length reject on the raw string, decode of value.trim(), post-check relaxed to > KEYSIZE", "too few hex digits padded with white space to at least 2N characters: copy_from_slice panics"),
+ "C10_nonce_ratchet_block0": ("C10", "nonces come from a per-thread HMAC ratchet seeded from the system RNG; an off-by-one publishes the generator's next state", "an observer who knows the construction predicts every later nonce of the thread; nothing ever repeats, statistics are perfect"),
+ "C11_expectation_replaces_rule": ("C11", "check_claim now also removes the validator registered for the key", "PasetoParser::default().check_claim(exp = x) and a token whose exp is exactly x, in the past"),
+ "C12_default_rules_pigeonhole": ("C12", "default rules registered through extend_validation_claims + the claim-less validator loop guarded by validators.len() > claims.len()", "PasetoParser::default() with two or more check_claim expectations on other claims, and a bad nbf / expired exp"),
+ "C13_claim_entry_rekeyed": ("C13", "set_claim files a one-entry-object claim under the entry's own name", "an application-defined impl PasetoClaim serialising as {\"exp\": ..} under another key silently overwrites exp"),
+ "C17_dup_key_sentinel": ("C17", "the duplicate record becomes a String where empty means none", "the legal empty-string key supplied twice (also pardons an earlier real duplicate)"),
+ "C14_blank_key_dropped": ("C14", "set_claim's empty-key guard becomes key.trim().is_empty()", "a claim whose key is white space only"),
+ "C18_error_excerpt_char_boundary": ("C18", "the rejected value echoed in the RFC3339Date error is cut at byte 64 without regard to character boundaries", "a non-date longer than 64 bytes with a multi-byte character straddling byte 64: panic"),
+ "C15_null_expectation": ("C15", "the presence test moved inside the values-differ branch", "an expected claim whose value serialises to null and a token lacking it: Ok instead of the missing-claim error"),
+ "C16_nonobject_payload": ("C16", "verify_claims wrapped in if let Some(object) = json.as_object()", "an authentic token whose payload is valid JSON but not an object: no validator runs, parse succeeds"),
+ "C19_generic_builder_v3_encrypt_any_purpose": ("C19", "impl GenericBuilder<V3, Local> { try_encrypt } generalised over Purpose", "GenericBuilder::<V3, Public>::try_encrypt(&v3_local_key) compiles"),
+ "C20_symkey_second_asref": ("C20", "a second AsRef impl on PasetoSymmetricKey gated on the chacha20poly1305 dependency (v2_local)", "client code calling key.as_ref().len() stops compiling once v2_local is enabled next to another local protocol"),
 }
 
 def main():
